@@ -8,8 +8,9 @@ Exploration: configuration space (K) plus, for the FFTW back-end, call histories
             with a direct-summation reference (``mc/ref/fourier.py``, validated against
             ``numpy.fft`` by ``tests/test_c18_ref.py``), out-of-place and with a NaN-prefilled
             ``out``; the explicitly built inverse, the ``.inverse`` property and pre-planned
-            (``init_fftw_plan``) operators must map the reference images back to the inputs;
-            inputs must stay untouched.
+            (``init_fftw_plan``, then ``clear_fftw_plan``) operators must map the reference
+            images back to the inputs; ``inverse.inverse`` acts like the forward operator and a
+            second ``.inverse`` like the first; inputs must stay untouched.
 * ``hist``  pyfftw only: every history of length <= depth over {call again with the same input,
             call with another input, build a second operator of the same configuration and call
             it, call with ``out=``}, starting from empty FFTW wisdom; every step is compared with
@@ -19,12 +20,20 @@ Exploration: configuration space (K) plus, for the FFTW back-end, call histories
             Fourier integral of the piecewise constant interpolant at the documented reciprocal
             grid nodes (the formula in the docstrings of dft_preprocess_data /
             dft_postprocess_data / reciprocal_grid); in-place == out-of-place.
+            Derived / planned objects: ``ft.inverse.inverse`` and a second ``ft.inverse`` act
+            like the first ones; pyfftw: ``init_fftw_plan()`` / ``clear_fftw_plan()`` (twice) on
+            fresh and on used operators do not change the values.
+* ``grid``  ``reciprocal_grid`` equals the documented nodes and ``realspace_grid`` maps it back to
+            the original grid: shape x axes x per-axis shift x halfcomplex x argument form.
 * ``gauss`` the error against the analytic transform of a (translated) Gaussian on [-10, 10]
             at least halves with every doubling of the grid.
 * ``wt``    WaveletTransform: wavelet x nlevels x pad mode x shape x axes x dtype;
             ``W.inverse(W(e_k)) == e_k``; for orthogonal wavelets with periodisation and lengths
             divisible by 2**nlevels the matrices of ``W.adjoint`` / ``W.inverse.adjoint`` equal
-            the weighted transposes.
+            the weighted transposes.  Shapes show every parity pattern of the transformed axes
+            (1-3 d); the same operators are also reached through the other documented entry
+            points (``pywt.Wavelet`` object, ``axes`` None / int / negative, the inverse built by
+            its own constructor, ``W.inverse.inverse``), on complex spaces and with ``out=``.
 
 Hidden state owned by the harness: FFTW wisdom is process-global, so every state starts with
 ``pyfftw.forget_wisdom()``; FFTW_MEASURE picks algorithms by *timing*, so whether a plan flagged
@@ -393,7 +402,7 @@ def _run_dft(cfg):
             acc.add(inv.site, 'derived_operator_has_other_type_or_spaces',
                     '%s: .inverse of the inverse is %r' % (ctx0, ii))
         else:
-            derived.append((Op(ii, _dft_site('DiscreteFourierTransform', ii.impl, dt, hc, ii.sign,
+            derived.append((Op(ii, _dft_site('DiscreteFourierTransform', ii.impl, dt, hc, sign,
                                              shape, axes), note='(via inverse.inverse)'),
                             X, Y, 'matrix_differs'))
     except Exception as e:
@@ -1173,7 +1182,7 @@ def _cfg_wt(tier):
             continue
         for axes in _subsets(len(shape)):
             for form in _wt_forms(shape, axes):
-                for w in (some if thorough else FORM_WAVELETS):
+                for w in (some if (thorough and len(shape) < 3) else FORM_WAVELETS):
                     for nl in (1, None):
                         for mode in PAD_MODES:
                             emit(shape, axes, w, nl, mode, 'float64', form)
@@ -1243,21 +1252,39 @@ def meta(tier):
                       if thorough else '{2,3}^3 + 2 mixed shapes')
                    + '; every non-empty axes subset; f32/f64/c64/c128; halfcomplex; sign; '
                      'numpy/pyfftw; pyfftw default (FFTW_MEASURE) and FFTW_ESTIMATE flags; '
-                     'out-of-place, out=, .inverse, init_fftw_plan',
+                     'out-of-place, out=, .inverse (twice), inverse.inverse, init_fftw_plan, '
+                     'clear_fftw_plan',
             'hist': 'pyfftw, all histories of length 3 over {%s}' % (HIST_ACTIONS if thorough
                                                                      else 'son'),
             'ft': 'same sizes (3-d: ' + ('{2,3}^3, [4,5,4], [5,4,5] and 4 mixed shapes, double '
                                           'precision' if thorough else '2 shapes')
                   + ') x per-axis shift x '
                   'temporaries ' + ("{none, create_temporaries, ctor tmp_r/tmp_f}" if thorough
-                                    else '{none, create_temporaries}'),
+                                    else '{none, create_temporaries}')
+                  + ' x {operator, .inverse, .inverse again, .inverse.inverse, init_fftw_plan / '
+                    'clear_fftw_plan on fresh and used operators}',
+            'grid': 'reciprocal_grid / realspace_grid: sizes {2,3,4,5}^ndim (ndim 1-2; 3-d: '
+                    + ('all' if thorough else '{2,3}^3 + 2 mixed shapes') + ') x axes subsets x '
+                    'per-axis shift x halfcomplex x argument form {list, tuple, scalar / None}',
             'gauss': {'n_1d': GAUSS_N, 'n_2d': GAUSS_N2 if thorough else None,
                       'centre': list(GAUSS_C)},
             'wt': {'wavelets': 'all %d discrete PyWavelets wavelets' % len(
                 pywt.wavelist(kind='discrete')) if thorough else list(QUICK_WAVELETS),
                 'nlevels': [1, 2, 'None (= pywt.dwtn_max_level)'],
                 'pad_modes': list(PAD_MODES),
-                'coefficient_count_cap': COEFF_CAP[tier]},
+                'coefficient_count_cap': COEFF_CAP[tier],
+                'shapes': '1-d 8, 9, 12%s; 2-d %s (every parity pattern)%s; 3-d %s (odd axes in '
+                          'every position of every axes subset; wavelets %s)' % (
+                              ', 16' if thorough else '', [list(t) for t in SHAPES_2D],
+                              ', [8,8], [6,10]' if thorough else '',
+                              [list(t) for t in SHAPES_3D[tier]], list(WAVELETS_3D)),
+                'dtypes': 'float64; float32 and complex128 / complex64 on some shapes',
+                'entry_points': {'forms': ['plain'] + list(WT_FORMS),
+                                 'wavelets': ('quick list (3-d: %s)' % list(FORM_WAVELETS)
+                                              if thorough else list(FORM_WAVELETS)),
+                                 'nlevels': [1, 'None']},
+                'inputs': 'all unit vectors (and i * e_k on complex spaces), one dense vector '
+                          'out-of-place and with out='},
             'tolerances': {'dft': TOL_DFT, 'ft': TOL_FT, 'wavelet': TOL_WT},
         },
         'assumptions': [
